@@ -230,6 +230,11 @@ def equiv_worker(job, ra, rb, fp_prefix, replay_kind, witnesses_fn=None, cells_f
         bad = H.reach_by_witness(pa) if not fixed_point else []
         if bad:
             errs.append("witness %d does not satisfy A's hypotheses: %s" % (wi, D._short(bad[0], 160)))
+            # the solver cannot decide this path; the nominal point still goes to the replay as a candidate
+            # (a VIOLATION is only printed if the real code reproduces a difference there)
+            viol.append({"fingerprint": fp_prefix + "/undecided-path", "detail": {"job": job["name"], "why": "witness outside hypotheses"},
+                         "replay": dict({"kind": replay_kind, "spec": spec, "specB": rb.spec, "values": {},
+                                         "numba": job.get("numba"), "pfmode": job.get("pfmode")}, **(replay_extra or {}))})
         obs = []
         if compare_systems:
             sysa, sysb = pa.systems[na_pre:], pb.systems[nb_pre:]
